@@ -34,6 +34,9 @@ TRUSTED_COMMON = [
 TRUSTED_QUEUE = [
     "tools/goqueue (purely syntactic translator, one Go statement of a queue_ method = one constructor of coq/QueueLang.v; fields found by their types, locals by their use) and the meaning given to that micro-language in coq/QueueSem.v (segments between scheduling points; Go channel semantics as a token counter with capacity and closed flag; the mutex as the discipline 'one shared action per segment')",
 ]
+TRUSTED_SCAN = [
+    "tools/goscan (purely syntactic translator of the scanner's bookkeeping: foundToken, foundError, foundEOF, indexOfLastEOL, scanTokens statement by statement into coq/ScanLang.v; the roles first/next/line/position of the int fields read off emitToken; methods found by signature, locals named by kind) and the meaning given in coq/ScanSem.v (int as Z; a string as the list of its runes, len(string) as the length of its UTF-8 encoding; the regular-expression match MatchToken as the model's Lexer.recognize; the token queue as a list; the goroutine run to its end)",
+]
 TRUSTED_PIPES = [
     "tools/gopipes (purely syntactic translator, one Go statement of the queue class functions MakeWithCapacity / MakeFromArray / MakeFromSequence / Fork / Split / Join = one constructor of coq/PipeLang.v; fields found by their types, parameters named by type and locals by what they are initialised with) and the meaning given to that micro-language in coq/PipeSem.v (a goroutine as a call generator: local code between two queue-method calls; iterators = the model of agent/iterator.go proved in IterProofs.v; nil queue = panic; uint as unbounded naturals; List[QueueLike]/Array as sequences; the caller's part of Fork/Split/Join run to completion before the pipeline starts)",
 ]
@@ -514,7 +517,7 @@ def check(drv, pid, tier, seed):
     ev = dict(property_id=pid, tier=tier, seed=seed, level='proof',
               coverage=dict(obligations=nobl, discharged=ndis,
                             checker_cmd='cd /verif/coq && coq_makefile -f _CoqProject -o Makefile && make -j16  (coqc 8.16.1, full .vo build); then coqc on build/%s/cases_*.v (vm_compute of the model on the generated histories)' % pid,
-                            trusted_base=assumptions_of(drv, pid) + (static.get('assumptions', []) if static is not None else []) + TRUSTED_COMMON + (TRUSTED_GEN if cfg.get('gen_proofs') else []) + (TRUSTED_QUEUE if cfg.get('queue_proofs') else []) + (TRUSTED_PIPES if 'GenC06.v' in (cfg.get('queue_proofs') or []) else []),
+                            trusted_base=assumptions_of(drv, pid) + (static.get('assumptions', []) if static is not None else []) + TRUSTED_COMMON + (TRUSTED_GEN if cfg.get('gen_proofs') else []) + (TRUSTED_QUEUE if (cfg.get('queue_proofs') and 'GenC12.v' not in cfg.get('queue_proofs')) else []) + (TRUSTED_PIPES if 'GenC06.v' in (cfg.get('queue_proofs') or []) else []) + (TRUSTED_SCAN if 'GenC12.v' in (cfg.get('queue_proofs') or []) else []),
                             evaluations=meta['cases'], distinct_nontrivial=meta['distinct_nontrivial'], rule=meta['rule'],
                             samples=meta['samples'], steps=meta['steps'],
                             traces_validated_against_impl=meta['cases'],
